@@ -237,11 +237,14 @@ PLANS = {
                 "functions on 12 adversarial families (a^(m-1)b in (a^(m-1)c)^r and in a^n, a^m in (a^(m-1)b)^r, needles > 255 bytes over two common bytes, "
                 "periodic needles in near-periods, pair bytes recurring everywhere, Fibonacci, Thue-Morse, quiet prefix then dense false candidates, empty "
                 "needle, (ab)^k c in (ab)^r, random binary) at n in {256..256 Ki (1 Mi scaled)}, m in 2..=1024 (4096 scaled), plus every binary needle <= 7 x "
-                "haystack <= 12. Oracles: steps <= 96*(n+m)+8192; steps(4n,4m) <= 6*steps(n,m) and steps(16n,16m) <= 24*steps(n,m) for needles >= 65 bytes on "
-                "families traversed completely (linear gives 4 resp. 16, a term in n*m gives 16 resp. 256). Non-trivial: n >= 4096.",
+                "haystack <= 12; and on GENERATED families: a structured needle (13 kinds, 65..=256 bytes) and a haystack tile of needle-derived pieces, both "
+                "instantiated at scales 1, 4, 16 (64) with complete find_iter / rfind_iter traversals. Oracles: steps <= 96*(n+m)+8192; steps(4n,4m) <= 6*steps(n,m) and steps(16n,16m) <= 24*steps(n,m) for needles >= 65 bytes on "
+                "families traversed completely (linear gives 4 resp. 16, a term in n*m gives 16 resp. 256); for generated families the cost per byte must "
+                "not reach 12 steps while being 3x its value at scale 1 (bounded cost saturates below 6 on any input, whatever regime the heuristics are in). Non-trivial: n >= 4096.",
         "stages": [
             {"name": "steps", "cmd": "steps", "configs": cfgs(NATIVE), "shards": shards(16, 16), "args": ["--scale", "12"]},
             {"name": "steps-exh", "cmd": "steps-exh", "configs": cfgs(NATIVE), "shards": shards(4, 8)},
+            {"name": "steps-gen", "cmd": "steps-gen", "configs": cfgs(NATIVE), "shards": shards(16, 16), "args": ["--scale", "12"]},
         ],
         "assumptions": DEFAULT_ASSUMPTIONS + ["the step counter only sees loops that carry a tick (all loops of the substring search code do); constant-factor slowdowns are by definition not violations"],
     },
